@@ -383,6 +383,9 @@ fn head_stats(h: &[u8], rep: &mut Report) {
 }
 
 pub fn c13(ctx: &Ctx, rep: &mut Report) {
+    // destinations of `clone_from`: they live as long as the shard and have held the sets of earlier inputs
+    let mut pool_fa = fasta::RecordSet::default();
+    let mut pool_fq = fastq::RecordSet::default();
     let mut idx = ctx.only.unwrap_or(0);
     loop {
         if ctx.only.is_none() && (ctx.expired() || idx >= ctx.max_cases) {
@@ -444,6 +447,7 @@ pub fn c13(ctx: &Ctx, rep: &mut Report) {
                     let mut set = fasta::RecordSet::default();
                     let mut k = 0;
                     while let Some(Ok(())) = rdr.read_record_set(&mut set) {
+                        let k0 = k;
                         for rec in &set {
                             let o = check_fasta_views(&rec, rep).map_err(|e| format!("record set: {}", e))?;
                             if owned_next.get(k) != Some(&o) {
@@ -453,6 +457,21 @@ pub fn c13(ctx: &Ctx, rep: &mut Report) {
                             n_checked += 1;
                             rep.count("records_via_record_set");
                         }
+                        // copies of the set: `clone_from` into a set that other inputs have filled before, and `clone`
+                        pool_fa.clone_from(&set);
+                        let cl = set.clone();
+                        for (name, copy) in [("clone_from into a used set", &pool_fa), ("clone", &cl)] {
+                            if copy.len() != set.len() {
+                                return Err(format!("{}: {} records instead of {}", name, copy.len(), set.len()));
+                            }
+                            for (j, rec) in copy.into_iter().enumerate() {
+                                let o = check_fasta_views(&rec, rep).map_err(|e| format!("{}: {}", name, e))?;
+                                if owned_next.get(k0 + j) != Some(&o) {
+                                    return Err(format!("record {} of a set made by {} differs from the one read singly", k0 + j, name));
+                                }
+                            }
+                        }
+                        rep.count("record_sets_copied_and_compared");
                     }
                 }
                 Fmt::Fastq => {
@@ -474,6 +493,7 @@ pub fn c13(ctx: &Ctx, rep: &mut Report) {
                     let mut set = fastq::RecordSet::default();
                     let mut k = 0;
                     while let Some(Ok(())) = rdr.read_record_set(&mut set) {
+                        let k0 = k;
                         for rec in &set {
                             let o = check_fastq_views(&rec).map_err(|e| format!("record set: {}", e))?;
                             if owned_next.get(k) != Some(&o) {
@@ -483,6 +503,20 @@ pub fn c13(ctx: &Ctx, rep: &mut Report) {
                             n_checked += 1;
                             rep.count("records_via_record_set");
                         }
+                        pool_fq.clone_from(&set);
+                        let cl = set.clone();
+                        for (name, copy) in [("clone_from into a used set", &pool_fq), ("clone", &cl)] {
+                            if copy.len() != set.len() {
+                                return Err(format!("{}: {} records instead of {}", name, copy.len(), set.len()));
+                            }
+                            for (j, rec) in copy.into_iter().enumerate() {
+                                let o = check_fastq_views(&rec).map_err(|e| format!("{}: {}", name, e))?;
+                                if owned_next.get(k0 + j) != Some(&o) {
+                                    return Err(format!("record {} of a set made by {} differs from the one read singly", k0 + j, name));
+                                }
+                            }
+                        }
+                        rep.count("record_sets_copied_and_compared");
                     }
                 }
             }
